@@ -98,7 +98,7 @@ class C15(Prop):
     quick_cases = 3000
     thorough_cases = 60000
     shard = 200
-    rule = ("four case kinds (30% H, 30% D, 30% R, 10% Q). H: 0..6 bounds from a 17-value pool (+-inf, +-0, subnormal, neighbours, NaN rarely; "
+    rule = ("five case kinds (30% H, 30% D, 15% R, 15% V, 10% Q). H: 0..6 bounds from a 17-value pool (+-inf, +-0, subnormal, neighbours, NaN rarely; "
             "ascending with repeats, 15% shuffled) and 1..10 record/record_many operations (batches of 0..6) whose samples are bounds, "
             "their neighbours, pool values or NaN, observed after every operation. D: 0..6 overrides (Full/Prefix/Suffix, patterns cut "
             "from the name raw or pre-sanitised, or random segments incl. digits, non-ASCII), optional global buckets, one name, through "
@@ -107,7 +107,10 @@ class C15(Prop):
             "buckets or none x metric name ending in the unit suffix or not x per override kind x target (metric name, suffixed family name, "
             "common prefix, neither, repeat); the distribution over these dimensions is written to the evidence (config_distribution). R: bucket_count 1..5, duration in {1,2,5,7,10}ns, 1..14 "
             "add/snapshot operations with time steps on and around bucket and window edges (10% of cases with a backward step). "
-            "Q: one quantile (a 30-value list incl. 0, 1, out-of-range, -0.0, NaN, +-inf, 0.29, 0.57, 1e-7, or k/1000, k/100000). "
+            "V: the R operations through the real exporter under a mock quanta clock (PrometheusBuilder+build_recorder, histogram!().record, render): "
+            "a burst of 1..6 samples (1/8 +-inf), then 1..4 renders at times chosen on and one tick around the window and bucket edges so that none/some/"
+            "all samples are outside the window, optionally more samples and renders; the distribution (samples outside the window per render, "
+            "infinite samples) is written to the evidence (summary_window_distribution). Q: one quantile (a 30-value list incl. 0, 1, out-of-range, -0.0, NaN, +-inf, 0.29, 0.57, 1e-7, or k/1000, k/100000). "
             "Non-trivial = at least one operation / override; distinct = distinct (case, output)")
     design_ref = "DESIGN.md 4 C15"
     technique = ("Coq proof over an abstract float interface (FloatOps) about hand-written models of Histogram, Matcher/DistributionBuilder "
@@ -124,7 +127,8 @@ class C15(Prop):
                   "full / suffix (incl. whole-name) soundness after sanitisation; the pre-fix suffix rule refuted. Rolling summary: for every history "
                   "with non-decreasing timestamps the invariant (buckets descending and >= dur apart, <= n, each holding exactly the finite samples "
                   "of its [begin, begin+dur)) holds, a snapshot contains no sample older than now-n*dur and every sample >= now-n*dur+dur (also as "
-                  "multiset counts), truncate never evicts a retained bucket, count counts all adds (C15_window, C15_window_truncate_never_evicts). "
+                  "multiset counts), truncate never evicts a retained bucket, count counts all adds and sum is the fold of all adds whatever left the "
+                  "window, a snapshot reports exactly these (C15_window, C15_window_truncate_never_evicts, C15_summary_sum_covers_all). "
                   "C15_spec_ok_on_model: the models' outputs satisfy the executable property for all histogram, override and rolling-summary cases (not for quantile-label cases). "
                   "All models are tied to /repo by running the real code and the model (on Coq primitive binary64 floats) on the same cases each "
                   "run; spec_ok is evaluated on every implementation output.")
@@ -138,7 +142,7 @@ class C15(Prop):
                    "quanta mock clock stands for the real clock",
                    "the theorems are stated for every FloatOps instance whose <= is transitive and in which a value not <= itself (NaN) is <= nothing; "
                    "that Coq's primitive floats satisfy this is not proved (it would need the FloatAxioms of the standard library)",
-                   "rolling-summary samples in the correspondence runs are finite non-NaN doubles that are 0 or of magnitude 1e-3..1e6 (and infinities, which Summary::add drops)"]
+                   "rolling-summary samples in the correspondence runs are non-NaN doubles that are 0, of magnitude 1e-3..1e6, or +-inf (Summary::add drops infinities from the sketch; _sum and _count include them); NaN samples are outside the summary clause (no order; DDSketch files them under zero)"]
     trusted_extra = ["sketches-ddsketch (quantile estimation; only count/min/max and min*(1-1e-4) <= q <= max*(1+1e-4) are checked)",
                      "Coq primitive floats (kernel-native binary64 under vm_compute) as the evaluation of FloatOps",
                      "std HashMap iteration order inside DistributionBuilder::new (exercised; the model uses insertion order and unique keys)"]
@@ -318,6 +322,77 @@ class C15(Prop):
             ops.append(["P", t + rng.pick([0, 1, dur, maxdur - 1, maxdur])])
         return dict(k="R", n=n, dur=dur, ops=ops)
 
+    def gen_render(self, rng):
+        """summary observed through the exporter (Inner::render) under the mock clock: a burst of samples, then renders at times
+        chosen so that none, some or all samples have left the window (on and one tick around the window and bucket edges),
+        optionally more samples and another render"""
+        n = rng.range(1, 5)
+        dur = rng.pick([1, 2, 5, 7, 10])
+        maxdur = n * dur
+        t = rng.pick([0, 0, rng.below(3 * maxdur + 1), maxdur, 1000])
+        ops = []
+
+        def val():
+            return rng.weighted([(14, hx(rng.pick(self.RVALS))), (1, hx(INF)), (1, hx(-INF))])
+
+        def burst(k):
+            nonlocal t
+            ts = []
+            for _ in range(k):
+                t += rng.pick([0, 0, 1, max(dur - 1, 0), dur, dur + 1, rng.below(dur + 1), max(maxdur - dur, 0), rng.below(maxdur + 1)])
+                ops.append(["A", t, val()])
+                ts.append(t)
+            return ts
+
+        def renders(ts, k):
+            nonlocal t
+            first, last = ts[0], ts[-1]
+            cands = [last, last + 1, first + maxdur - 1, first + maxdur, first + maxdur + 1, last + maxdur - dur, last + maxdur - dur + 1,
+                     last + maxdur - 1, last + maxdur, last + maxdur + 1, last + 2 * maxdur + 3, first + dur * rng.range(1, n + 1),
+                     first + dur * rng.range(1, n + 1) - 1, last + rng.below(2 * maxdur + 2)]
+            cands = sorted(set(c for c in cands if c >= last))
+            for c in sorted(rng.pick(cands) for _ in range(k)):
+                ops.append(["P", c])
+                t = max(t, c)
+
+        ts = burst(rng.range(1, 6))
+        renders(ts, rng.range(1, 4))
+        if rng.chance(1, 3):
+            ts = burst(rng.range(1, 3))
+            renders(ts, rng.range(1, 2))
+        if rng.chance(1, 12) and len(ops) > 2:
+            j = rng.range(1, len(ops) - 1)          # one backward step: compared with the model, window clauses not asserted
+            ops[j] = [ops[j][0], max(0, ops[j][1] - rng.pick([1, dur, maxdur]))] + ops[j][2:]
+        return dict(k="V", n=n, dur=dur, ops=ops)
+
+    def window_stats(self, cases):
+        """per snapshot/render: how many of the finite samples recorded so far are outside the window (t <= now - n*dur)"""
+        st = {}
+        for c in cases:
+            if c["k"] not in ("R", "V"):
+                continue
+            d = st.setdefault("render_path" if c["k"] == "V" else "direct_api",
+                              dict(cases=0, cases_with_infinite_samples=0, snapshots=0, no_sample_yet=0, none_outside_window=0,
+                                   some_outside_window=0, all_outside_window=0, on_window_edge=0, infinite_samples_before_snapshot=0))
+            d["cases"] += 1
+            maxdur = c["n"] * c["dur"]
+            past, ninf = [], 0
+            d["cases_with_infinite_samples"] += any(o[0] == "A" and unhx(o[2]) in (INF, -INF) for o in c["ops"])
+            for o in c["ops"]:
+                if o[0] == "A":
+                    if unhx(o[2]) in (INF, -INF):
+                        ninf += 1
+                    else:
+                        past.append(o[1])
+                    continue
+                d["snapshots"] += 1
+                d["infinite_samples_before_snapshot"] += ninf > 0
+                out = [tt for tt in past if o[1] >= maxdur and tt <= o[1] - maxdur]
+                d["on_window_edge"] += any(o[1] >= maxdur and tt in (o[1] - maxdur, o[1] - maxdur + 1, o[1] - maxdur + c["dur"]) for tt in past)
+                d["no_sample_yet" if not past else "none_outside_window" if not out else
+                  "all_outside_window" if len(out) == len(past) else "some_outside_window"] += 1
+        return st
+
     QVALS = [0.0, 0.5, 0.9, 0.95, 0.99, 0.999, 0.9999, 1.0, 1.2, -1.0, -0.0, 0.25, 0.1, 0.7, 1e-7, 0.123456789, 0.29, 0.57,
              0.05, 0.005, 0.3, 0.07, 0.14, 0.55, 1.0000000000000002, 0.9999999999999999, 5e-324, 1e300, INF, -INF]
 
@@ -342,13 +417,18 @@ class C15(Prop):
         cases = []
         for i in range(n):
             k = i % 10
+            if k == 8 or (k == 5 and (i // 10) % 2 == 0):
+                cases.append(self.gen_render(rng))
+                continue
             cases.append(self.gen_quant(rng) if k == 9 else self.gen_hist(rng) if k % 3 == 0 else self.gen_dist(rng) if k % 3 == 1 else self.gen_roll(rng))
         if getattr(self, "_stats", None) is None:
             self._stats = self.config_stats(cases)
+            self._wstats = self.window_stats(cases)
         return cases
 
     def extra_checks(self, ctx):
         ctx["coverage"]["config_distribution"] = getattr(self, "_stats", None)
+        ctx["coverage"]["summary_window_distribution"] = getattr(self, "_wstats", None)
         return []
 
     # ------------------------------------------------------------------ implementation side
@@ -368,6 +448,8 @@ class C15(Prop):
         if c["k"] == "Q":
             return "Q " + c["q"]
         toks = [("A%d:%s" % (o[1], o[2])) if o[0] == "A" else ("P%d" % o[1]) for o in c["ops"]]
+        if c["k"] == "V":
+            return "V %d %d | %s" % (c["n"], c["dur"], " ".join(toks))
         return "R %d %d | %s" % (c["n"], c["dur"], " ".join(toks))
 
     def parse_out(self, c, line):
@@ -395,7 +477,12 @@ class C15(Prop):
             return dict(v=v, label=un(l), fc=un(fc), fd=un(fd))
         outs = []
         for t in line.split():
-            if t[0] == "a":
+            if t == "k":
+                outs.append(["k"])
+            elif t[0] == "r":
+                _, cnt, sm, qs = t.split(":")
+                outs.append(["r", int(cnt), sm, qs.split(",")])
+            elif t[0] == "a":
                 outs.append(["a", int(t[1:])])
             else:
                 _, cnt, sm, sc, mn, mx, qs = t.split(":")
@@ -431,7 +518,11 @@ class C15(Prop):
             return "(oquant %s %s %s %s)" % (cq_f(o["v"]), cq_str(o["label"]), cq_str(o["fc"]), cq_str(o["fd"]))
         xs = []
         for t in o["outs"]:
-            if t[0] == "a":
+            if t[0] == "k":
+                xs.append("oack")
+            elif t[0] == "r":
+                xs.append("oren %s %s %s" % (cq_N(t[1]), cq_f(t[2]), cq_fl(t[3])))
+            elif t[0] == "a":
                 xs.append("oadd %s" % cq_N(t[1]))
             else:
                 xs.append("osnap %s %s %s %s %s %s" % (cq_N(t[1]), cq_f(t[2]), cq_N(t[3]), cq_f(t[4]), cq_f(t[5]), cq_fl(t[6])))
@@ -476,6 +567,9 @@ class C15(Prop):
                 cands.append(dict(c, ops=ops[:i] + ops[i + 1:]))
             if c["n"] > 1:
                 cands.append(dict(c, n=c["n"] - 1))
+            if c["k"] == "V":
+                # through the exporter nothing is rendered before the first sample: keep a sample first and a render in the case
+                cands = [x for x in cands if x["ops"] and x["ops"][0][0] == "A" and any(o[0] == "P" for o in x["ops"])]
         return cands
 
 
